@@ -3,6 +3,7 @@ import ast
 from .common import *
 
 SRC = 'localcider/backend/sequenceComplexity.py'
+OUTPUTS = ['GAlphabets']
 
 
 def _append_target(stmts):
@@ -65,7 +66,7 @@ def _branch(body, names):
 
 def generate(repo):
     tree = parse_file(repo + '/' + SRC)
-    out = Out('Alphabets', SRC, ['From Coq Require Import List ZArith Bool.',
+    out = Out('GAlphabets', SRC, ['From Coq Require Import List ZArith Bool.',
                                  'From LC Require Import Core.Residue.',
                                  'Import ListNotations.', 'Local Open Scope Z_scope.'])
     f = find_func(tree, 'reduce_alphabet', 'SequenceComplexity')
